@@ -42,16 +42,18 @@ Theorem http_refines_pipe_producer :
          (seal_call : callinfo -> ctoken) (open_call : ctoken -> option callinfo)
          (L : nat) (cut : list frame -> bool) (cmax : nat) (route : nat -> nat)
          (mth : bytes) (schema_of : callinfo -> bytes) (refusal : frame)
+         (env : nat -> (nat -> cache) -> (nat -> cache))
          (vw : bytes -> frame -> list V) (info : callinfo) (schema : bytes),
   (forall s, deser (ser s) = Some s) ->
   (forall x, open_cur (seal_cur x) = Some x) ->
   (forall x, open_call (seal_call x) = Some x) ->
+  (forall k cs, caches_ok (ci_id info) info cs -> caches_ok (ci_id info) info (env k cs)) ->
   ci_method info = mth ->
   schema_of info = schema ->
   forall (caches : nat -> cache) (s0 : state) (pre : list frame) (ticks : list inp),
   caches_ok (ci_id info) info caches ->
   resps_view vw (http_prod step ser deser seal_cur open_cur seal_call open_call L cut cmax route mth
-                   schema_of refusal info schema caches s0 pre ticks)
+                   schema_of refusal env info schema caches s0 pre ticks)
   = flat_map (vw schema) (pre ++ pipe_loop step inl s0 ticks).
 Proof. exact @http_prod_view. Qed.
 
@@ -68,10 +70,12 @@ Theorem http_refines_pipe_exchange :
          (seal_cur : bytes * sbytes -> token) (open_cur : token -> option (bytes * sbytes))
          (seal_call : callinfo -> ctoken) (open_call : ctoken -> option callinfo)
          (cmax : nat) (route : nat -> nat) (mth : bytes) (schema_of : callinfo -> bytes)
-         (refusal : frame) (vw : bytes -> frame -> list V) (info : callinfo) (schema : bytes),
+         (refusal : frame) (env : nat -> (nat -> cache) -> (nat -> cache))
+         (vw : bytes -> frame -> list V) (info : callinfo) (schema : bytes),
   (forall s, deser (ser s) = Some s) ->
   (forall x, open_cur (seal_cur x) = Some x) ->
   (forall x, open_call (seal_call x) = Some x) ->
+  (forall k cs, caches_ok (ci_id info) info cs -> caches_ok (ci_id info) info (env k cs)) ->
   ci_method info = mth ->
   schema_of info = schema ->
   (forall s i s' o f, step s i = TOk s' o f -> f = false) ->
@@ -80,7 +84,7 @@ Theorem http_refines_pipe_exchange :
   (forall r, In r ins -> cast_http cast1 cast2 info r = cast_p r) ->
   caches_ok (ci_id info) info caches ->
   resps_view vw (http_exch step cast1 cast2 ser deser seal_cur open_cur seal_call open_call cmax route mth
-                   schema_of refusal info schema caches s0 pre ins)
+                   schema_of refusal env info schema caches s0 pre ins)
   = flat_map (vw schema) (pre ++ pipe_loop step cast_p s0 ins).
 Proof. exact @http_exch_view. Qed.
 
@@ -93,7 +97,7 @@ Proof. exact @concat_chunks. Qed.
    uncastable): the runtime input schema rides the call token *)
 Theorem repaired_http_casts_like_pipe : forall i r,
   is_producer (i_kind i) = false -> In r (raws i) ->
-  cast_http (cast_reg (i_kind i)) cast_rt (call_info false (i_kind i)) r = cast_pipe r.
+  cast_http (cast_reg (i_kind i)) cast_rt (call_info false (i_kind i) (i_ocol i)) r = cast_pipe r.
 Proof. intros i r Hp Hin. exact (casts_agree false i r Hp Hin (or_introl eq_refl)). Qed.
 
 (* THE PROPERTY in decidable form, on the executable model that is compared with
@@ -104,6 +108,25 @@ Proof. intros i r Hp Hin. exact (casts_agree false i r Hp Hin (or_introl eq_refl
    list, compression), the pipe view equals the HTTP view. No premise. *)
 Theorem http_refines_pipe : forall i, spec_ok i (model i) = true.
 Proof. exact model_meets_spec. Qed.
+
+(* OVERLAPPING calls on the same instances. [env] in the two theorems above is
+   everything the other calls do to every instance's cache between two requests
+   of this call; its premise is met by any request of a call with another call
+   id: its cache lookup / miss-path insert (resolveCall) and its /init insert
+   (packCallTokenFor), including the LRU evictions they cause. *)
+Theorem other_call_keeps_this_calls_entry :
+  forall (ctoken : Type) (open_call : ctoken -> option callinfo) (cid : bytes) (info : callinfo)
+         (max : nat) (cid' : bytes) (ct : ctoken) (c : cache),
+  beqb cid cid' = false -> cache_ok cid info c ->
+  cache_ok cid info (snd (resolve open_call max c cid' ct))
+  /\ forall info', cache_ok cid info (cput max cid' info' c).
+Proof. exact @other_stream_preserves. Qed.
+
+(* the property on a HISTORY (Model/C11H.v: the form compared with the real code):
+   any list of calls opened on the same servers, any interleaving of the client's
+   steps; every call's HTTP view equals its own pipe view *)
+Theorem http_refines_pipe_history : forall h, C11H.spec_ok h (C11H.model h) = true.
+Proof. exact history_meets_spec. Qed.
 
 (* the code before the repair (call token without the runtime input schema):
    dynamic exchange method, runtime input schema {x:int64}; the client sends
@@ -123,15 +146,17 @@ Proof. exact legacy_model_meets_spec_where_cast_safe. Qed.
 Example premises_satisfiable :
   (forall s : sstate, Some ((fun x => x) s) = Some s)
   /\ (forall s x s' o f, sstep false s x = TOk s' o f -> f = false)
-  /\ caches_ok cid0 (call_info false MDynExch) (fun _ => [])
-  /\ ci_inschema (call_info false MDynExch) = in_schema
+  /\ caches_ok cid0 (call_info false MDynExch (str "bravo")) (fun _ => [])
+  /\ ci_inschema (call_info false MDynExch (str "bravo")) = in_schema
+  /\ ci_schema (call_info false MDynExch (str "bravo")) = str "bravo:int64"
+  /\ beqb cid0 (str "other") = false
   /\ cast_safe (dyn_cast_witness CI32) = false.
-Proof. split; [reflexivity|]. split; [exact sstep_exch_nofin|]. split; [intro n; apply cache_ok_nil|]. split; reflexivity. Qed.
+Proof. split; [reflexivity|]. split; [exact sstep_exch_nofin|]. split; [intro n; apply cache_ok_nil|]. repeat split; vm_compute; reflexivity. Qed.
 
 Example nonvacuous :
   let i := {| i_kind := MProdH; i_reqid := str "r"; i_loglevel := str "INFO";
               i_initlogs := [ {| lg_level := str "INFO"; lg_msg := str "hi"; lg_extras := [] |} ];
-              i_initfail := None; i_header := Some 7%Z;
+              i_initfail := None; i_header := Some 7%Z; i_ocol := str "v";
               i_turns := map emit_turn [1; 2; 3; 4; 5]%Z; i_col := CI64; i_ins := [[]; []; []; []; []; []; []];
               i_L := 2; i_capevery := false; i_cmax := 0; i_route := [0; 1; 2]%nat; i_compress := true |} in
   length (o_http (model i)) = 3%nat
